@@ -5,6 +5,9 @@ import D42.Model.Codec
 import D42.Model.Validate
 import D42.Model.Gen
 import D42.Model.Subst
+import D42.Model.Decl
+import D42.Model.Repr
+import D42.Model.Eq
 
 open D42 D42.Sexp
 
@@ -14,6 +17,48 @@ def decRxTab : Sexp → Option (List (Nat × Str × Bool))
       | .list [i, s, b] => do some ((← sxNat i), (← decStr s), (← decBool b))
       | _ => none)
   | _ => none
+
+def decElemArg : Sexp → Option ElemArg
+  | .atom "E" => some .ell
+  | .atom "bad" => some .bad
+  | .list [.atom "sch", s] => do some (.sch (← decSchema s))
+  | _ => none
+
+def decKeyArg : Sexp → Option KeyArg
+  | .atom "E" => some .ell
+  | .list [.atom "key", k, o] => do some (.key (← decKey k) (← decBool o))
+  | _ => none
+
+def decArg : Sexp → Option Arg
+  | .atom "nil" => some .nil
+  | .list [.atom "v", x] => do some (.v (← decVal x))
+  | .list [.atom "sch", s] => do some (.sch (← decSchema s))
+  | .list (.atom "elems" :: xs) => do some (.elems (← xs.mapM decElemArg))
+  | .list (.atom "keys" :: kvs) => do
+      some (.keys (← kvs.mapM (fun kv => match kv with
+        | .list [k, v] => do some ((← decKeyArg k), (← decElemArg v))
+        | _ => none)))
+  | .list [.atom "pat", c, p, m] => do some (.pat (← decBool c) (← decPat p) (← decBool m))
+  | _ => none
+
+def decOp : Sexp → Option Op
+  | .list [.atom "call", a] => do some (.call (← decArg a))
+  | .list [.atom "min", a] => do some (.min (← decArg a))
+  | .list [.atom "max", a] => do some (.max (← decArg a))
+  | .list [.atom "precision", a] => do some (.precision (← decArg a))
+  | .list [.atom "len", a, b] => do some (.len (← decArg a) (← decArg b))
+  | .list [.atom "alphabet", a] => do some (.alphabet (← decArg a))
+  | .list [.atom "contains", a] => do some (.contains (← decArg a))
+  | .list [.atom "regex", a] => do some (.regex (← decArg a))
+  | .list (.atom "anycall" :: as) => do some (.anyCall (← as.mapM decArg))
+  | _ => none
+
+def encTok : Tok → Sexp
+  | .t s => .list (.atom "t" :: s.toList.map (fun c => .atom (toString c.toNat)))
+  | .val v => .list [.atom "val", encVal v]
+  | .key k => .list [.atom "key", encKey k]
+  | .pat i => .list [.atom "pat", encNat i]
+  | .name n => encNats "name" n
 
 def mkEnv (tab : List (Nat × Str × Bool)) : Env :=
   { rxSearch := fun i s => match tab.find? (fun e => e.1 == i && e.2.1 == s) with
@@ -58,6 +103,34 @@ def handle (e : Sexp) : Sexp :=
     (match decVal v with
      | some v => encExcept encSchema (fromNative v)
      | _ => .atom "BADINPUT")
+  | .list [.atom "decl", s, .list (.atom "ops" :: ops)] =>
+    (match decSchema s, ops.mapM decOp with
+     | some s, some ops => encExcept encSchema (Decl.run s ops)
+     | _, _ => .atom "BADINPUT")
+  | .list [.atom "union", a, b] =>
+    (match decSchema a, decSchema b with
+     | some a, some b => encSchema (a.union b)
+     | _, _ => .atom "BADINPUT")
+  | .list [.atom "add", a, b] =>
+    (match decSchema a, decSchema b with
+     | some a, some b => (match a.add b with | some r => .list [.atom "ok", encSchema r] | none => .list [.atom "exc", .atom "TypeError"])
+     | _, _ => .atom "BADINPUT")
+  | .list [.atom "makerequired", a, ks] =>
+    (match decSchema a, (match ks with | .atom "_" => some none | .list (.atom "ks" :: l) => (l.mapM decKey).map some | _ => none) with
+     | some a, some ks => encExcept encSchema (makeRequired a ks)
+     | _, _ => .atom "BADINPUT")
+  | .list [.atom "getitem", a, k] =>
+    (match decSchema a, decKey k with
+     | some a, some k => encExcept encSchema (getItem a k)
+     | _, _ => .atom "BADINPUT")
+  | .list [.atom "repr", s, ind] =>
+    (match decSchema s, sxNat ind with
+     | some s, some ind => .list (.atom "toks" :: (represent s ind).map encTok)
+     | _, _ => .atom "BADINPUT")
+  | .list [.atom "eq", a, b, tab] =>
+    (match decSchema a, decSchema b, decRxTab tab with
+     | some a, some b, some tab => encBool (pyEq (mkEnv tab) a b)
+     | _, _, _ => .atom "BADINPUT")
   | .list [.atom "echo-schema", s] =>
     (match decSchema s with | some s => encSchema s | none => .atom "BADINPUT")
   | .list [.atom "echo-value", v] =>
